@@ -17,4 +17,5 @@ for l in sys.stdin:
 print(o)")
 python3 tools/translate.py --out-dir "$OUT" --dest lean/OwlModel/Gen
 cd lean
-lake build owldrv OwlModel 2>&1 | tail -3
+MODS=$(ls OwlModel/Props/*.lean | sed -e 's|/|.|g' -e 's|\.lean$||')
+lake build owldrv OwlModel $MODS 2>&1 | tail -3
